@@ -131,33 +131,7 @@ def run(R, env):
                         good = cb is not None and role_of(prog, cb.key) == "address" and res[2][0] == ("elem",) and pfx_ok(res[2][1])
             elif role == "channel":
                 good = src(v)
-                # behind the channel test
-                c = Ctx(b)
-
-                def chan(x, truth):
-                    return None
-
-                tests = []
-                for abi, atom in c.atoms():
-                    if atom[0] != "bool":
-                        continue
-                    for s_ in subterms(atom[1]):
-                        if s_[0] == "call" and s_[1] == "core::str::starts_with" and src(s_[2][0]) and s_[2][1] == ("const", "str", "channel-"):
-                            tests.append("starts_with")
-                        if s_[0] == "call" and s_[1] == "core::str::parse" and any(x[0] == "call" and x[1] == "core::str::strip_prefix" and src(x[2][0]) and x[2][1] == ("const", "str", "channel-") for x in subterms(s_)) and "u64" in (s_[3][1] if len(s_) > 3 and s_[3] else ""):
-                            tests.append("parse-u64")
-                # world: starts_with false => no success; world: parse is_err => no success
-                ok_sw = ok_pa = False
-                sw = lambda x: x[0] == "call" and x[1] == "core::str::starts_with" and src(x[2][0]) and x[2][1] == ("const", "str", "channel-")
-                rem, n = bool_world_edges(c, sw, False)
-                w = c.with_removed(rem).settle()
-                ok_sw = n >= 1 and not any(e["kind"] != "err" for e in exits(w))
-                pa = lambda x: x[0] == "call" and x[1] == "std::result::Result::is_ok" and x[2][0][0] == "call" and x[2][0][1] == "core::str::parse" and any(y[0] == "call" and y[1] == "core::str::strip_prefix" and src(y[2][0]) for y in subterms(x))
-                w = c.assume_bool(pa, False).settle()
-                ok_pa = not any(e["kind"] != "err" for e in exits(w))
-                R.worlds += 2
-                R.ob("C14.R2", "channel:starts-with-channel-", ok_sw, "a channel id that does not start with \"channel-\" is accepted (tests: %s)" % sorted(set(tests)), fn=b.key)
-                R.ob("C14.R2", "channel:numeric-suffix", ok_pa and "parse-u64" in tests, "a channel id whose suffix is not a u64 is accepted (tests: %s)" % sorted(set(tests)), fn=b.key)
+                channel_checks(R, prog, b, "C14.R2")
             R.ob("C14.R1", "%s.%s" % (sec, fld), good, "%s.%s <- %s; expected %s(self.%s%s)" % (sec, fld, why, role, inp, (", " + pfx) if pfx else ""), loc=b.loc(bi, si), fn=b.key)
         extra = set(n for _, n, _ in t[3]) - set(ROUTING[sec])
         R.ob("C14.R1", sec + ":all-fields-reviewed", not extra, "fields without a routing rule: %s" % sorted(extra), fn=b.key)
@@ -364,3 +338,33 @@ def run(R, env):
             rem, n = world_edges(h, pos, False)
             w = h.with_removed(rem).settle()
             R.ob("C14.R5", "RemoveValidator:unknown-rejected", n >= 1 and not any(e["kind"] != "err" for e in exits(w)), "removing an address that is not in the list succeeds", fn=hk)
+
+
+def channel_checks(R, prog, b, rule):
+    """the function constructing ProtocolChainConfig accepts its ibc_channel_id only behind
+    starts_with("channel-") and parse::<u64>(rest).is_ok()"""
+    c = Ctx(b)
+    src = lambda x: x[0] == "field" and x[2] == "ibc_channel_id" and x[1][0] == "param" and x[1][1] == 1
+    tests = []
+    for abi, atom in c.atoms():
+        if atom[0] != "bool":
+            continue
+        for s_ in subterms(atom[1]):
+            if s_[0] == "call" and s_[1] == "core::str::starts_with" and src(s_[2][0]) and s_[2][1] == ("const", "str", "channel-"):
+                tests.append("starts_with")
+            if s_[0] == "call" and s_[1] == "core::str::parse" and any(x[0] == "call" and x[1] == "core::str::strip_prefix" and src(x[2][0]) and x[2][1] == ("const", "str", "channel-") for x in subterms(s_)) and "u64" in (s_[3][1] if len(s_) > 3 and s_[3] else ""):
+                tests.append("parse-u64")
+    sw = lambda x: x[0] == "call" and x[1] == "core::str::starts_with" and src(x[2][0]) and x[2][1] == ("const", "str", "channel-")
+    rem, n = bool_world_edges(c, sw, False)
+    w = c.with_removed(rem).settle()
+    ok_sw = n >= 1 and not any(e["kind"] != "err" for e in exits(w))
+    # the WHOLE remainder after "channel-" is what is parsed (no split / trim in between)
+    rest = lambda y: y[0] == "payload" and shared.unwrap_payload(y)[0] == "call" and shared.unwrap_payload(y)[1] == "core::str::strip_prefix" and src(shared.unwrap_payload(y)[2][0]) and shared.unwrap_payload(y)[2][1] == ("const", "str", "channel-")
+    pa = lambda x: x[0] == "call" and x[1] == "std::result::Result::is_ok" and x[2][0][0] == "call" and x[2][0][1] == "core::str::parse" and rest(x[2][0][2][0]) and "u64" in (x[2][0][3][1] if len(x[2][0]) > 3 and x[2][0][3] else "")
+    tests = [t_ for t_ in tests if t_ != "parse-u64"] + (["parse-u64"] if any(pa(s_) for _, atom in c.atoms() for s_ in subterms(atom[1])) else [])
+    w = c.assume_bool(pa, False).settle()
+    ok_pa = not any(e["kind"] != "err" for e in exits(w))
+    R.worlds += 2
+    R.ob(rule, "channel:starts-with-channel-", ok_sw, "a channel id that does not start with \"channel-\" is accepted (tests: %s)" % sorted(set(tests)), fn=b.key)
+    R.ob(rule, "channel:numeric-suffix", ok_pa and "parse-u64" in tests, "a channel id whose suffix is not a u64 is accepted (tests: %s)" % sorted(set(tests)), fn=b.key)
+    return ok_sw and ok_pa and "parse-u64" in tests
